@@ -114,8 +114,10 @@ def tool_pipelines(ctx, findings, res):
             if "err" in r["c"]["pw"]:
                 continue
 
-            def chk(name, canon_text):
-                ctx.case({"text": text, "pipeline": name})
+            def chk(name, canon_text, given=None):
+                # `given`: the text the pipeline was fed when it is not the canonical spelling (kept in the replay)
+                case = {"text": text if given is None else given, "zone_lines": model_zone_lines(d)}
+                ctx.case({"text": case["text"], "pipeline": name})
                 try:
                     got = TC.zones_of(T.doc_to_json(parse(canon_text)))
                 except BaseException as e:  # noqa: BLE001
@@ -133,9 +135,10 @@ def tool_pipelines(ctx, findings, res):
                 if w.get("status") == "success":
                     chk("octave_write(content)", open(p, encoding="utf-8", newline="").read())
                     pl = os.path.join(td, f"zl{k}.oct.md")
-                    wl = asyncio.run(WriteTool().execute(target_path=pl, content=r["ltext"] if "err" not in r["l"]["pw"] else text, lenient=True))
+                    lgiven = r["ltext"] if "err" not in r["l"]["pw"] else text
+                    wl = asyncio.run(WriteTool().execute(target_path=pl, content=lgiven, lenient=True))
                     if wl.get("status") == "success":
-                        chk("octave_write(lenient=true)", open(pl, encoding="utf-8", newline="").read())
+                        chk("octave_write(lenient=true)", open(pl, encoding="utf-8", newline="").read(), given=lgiven)
                     w2 = asyncio.run(WriteTool().execute(target_path=p))
                     if w2.get("status") == "success":
                         chk("octave_write(normalize)", open(p, encoding="utf-8", newline="").read())
